@@ -146,7 +146,12 @@ func unmarshalTable(fn *ssa.Function) ([]wireField, []string) {
 		}
 		base := storeBase(st)
 		if _, isParam := base.(*ssa.Parameter); !isParam {
-			return // only the receiver, not temporaries
+			// only the receiver, not temporaries - except a scratch value
+			// of the receiver's type that is copied into it as a whole
+			// (`parsed := T{}; ...; *recv = parsed`)
+			if !copiedIntoParam(base) {
+				return
+			}
 		}
 		add := func(wf wireField) {
 			if !seen[wf.String()] {
@@ -325,4 +330,28 @@ func readsOfHelper(call *ssa.Call, idx, depth int, outer func(ssa.Value) (int64,
 			reads(ret.Results[idx], depth+1, shift)
 		}
 	}
+}
+
+
+// copiedIntoParam: v is a local variable whose whole value is stored through
+// a parameter of the function (`*recv = v`).
+func copiedIntoParam(v ssa.Value) bool {
+	al, ok := v.(*ssa.Alloc)
+	if !ok || al.Referrers() == nil {
+		return false
+	}
+	for _, r := range *al.Referrers() {
+		ld, ok := r.(*ssa.UnOp)
+		if !ok || ld.Op != token.MUL || ld.Referrers() == nil {
+			continue
+		}
+		for _, u := range *ld.Referrers() {
+			if st, ok := u.(*ssa.Store); ok && st.Val == ssa.Value(ld) {
+				if _, isParam := st.Addr.(*ssa.Parameter); isParam {
+					return true
+				}
+			}
+		}
+	}
+	return false
 }
